@@ -179,6 +179,11 @@ type Case struct {
 	RawETP  []byte `json:"-"`
 	RawAuth []byte `json:"-"`
 
+	// absolute instants overriding the offsets (for times no duration from T0 can express)
+	CTimeAbs *time.Time `json:"ctime_abs,omitempty"`
+	StartAbs *time.Time `json:"start_abs,omitempty"`
+	EndAbs   *time.Time `json:"end_abs,omitempty"`
+
 	NowNudge time.Duration `json:"now_nudge"` // virtual now = T0 + NowNudge
 	Twice    bool          `json:"twice"`     // present twice; the verdict of interest is the second
 }
@@ -200,6 +205,10 @@ func (s Settings) EffSkew() time.Duration {
 }
 
 func dur(d time.Duration) *time.Duration { return &d }
+func timeP(t time.Time) *time.Time       { return &t }
+
+// yearsD is n years as a duration (n <= 292).
+func yearsD(n int) time.Duration { return time.Duration(n) * 365 * 24 * time.Hour }
 
 // Base is a valid request for the etype.
 func Base(et int32) Case {
@@ -260,6 +269,13 @@ func (w *World) Mint(c Case) (Minted, error) {
 	if c.Start != nil {
 		etp.StartTime = krbmsg.Tm(T0.Add(*c.Start))
 	}
+	if c.StartAbs != nil {
+		etp.StartTime = krbmsg.Tm(*c.StartAbs)
+	}
+	if c.EndAbs != nil {
+		etp.EndTime = *c.EndAbs
+		m.EndTime = *c.EndAbs
+	}
 	if c.RenewTill != nil {
 		etp.RenewTill = krbmsg.Tm(T0.Add(*c.RenewTill))
 	}
@@ -298,6 +314,9 @@ func (w *World) Mint(c Case) (Minted, error) {
 		}
 	}
 	ct := T0.Add(c.CTime)
+	if c.CTimeAbs != nil {
+		ct = *c.CTimeAbs
+	}
 	sec := ct.Truncate(time.Second)
 	if sec.After(ct) {
 		sec = sec.Add(-time.Second)
@@ -379,13 +398,20 @@ func (w *World) Expect(c Case, s Settings, replayed bool) Verdict {
 	if c.Start != nil {
 		start = T0.Add(*c.Start)
 	}
-	if start.Sub(now) > skew {
+	if c.StartAbs != nil {
+		start = *c.StartAbs
+	}
+	if start.After(now.Add(skew)) {
 		return rej("not-yet-valid")
 	}
 	if c.Flags&(1<<(31-7)) != 0 {
 		return rej("invalid-flag")
 	}
-	if now.Sub(T0.Add(c.End)) > skew {
+	end := T0.Add(c.End)
+	if c.EndAbs != nil {
+		end = *c.EndAbs
+	}
+	if now.After(end.Add(skew)) {
 		return rej("expired")
 	}
 	// address requirements
@@ -407,7 +433,10 @@ func (w *World) Expect(c Case, s Settings, replayed bool) Verdict {
 	}
 	// 5. authenticator timestamp within the skew
 	ct := T0.Add(c.CTime)
-	if now.Sub(ct) > skew || ct.Sub(now) > skew {
+	if c.CTimeAbs != nil {
+		ct = *c.CTimeAbs
+	}
+	if now.After(ct.Add(skew)) || ct.After(now.Add(skew)) {
 		return rej("clock-skew")
 	}
 	if s.RequireHostAddr && len(c.CAddr) < 1 {
@@ -519,6 +548,13 @@ func Catalogue(skew time.Duration) []Defect {
 		{"caddr-other-and-matching", func(c *Case) { c.CAddr = []krbmsg.HostAddress{AddrOther, AddrMatch} }},
 		{"caddr-empty-list", func(c *Case) { c.CAddr = []krbmsg.HostAddress{} }},
 		{"replay", func(c *Case) { c.Twice = true }},
+		{"tkt-realm-empty", func(c *Case) { c.TktRealm = "" }},
+		// times far outside what a duration can express (time.Time.Sub saturates beyond about 292 years)
+		{"ctime-300-years-ahead", func(c *Case) { c.CTime = yearsD(300) }},
+		{"ctime-year-9990", func(c *Case) { c.CTimeAbs = timeP(time.Date(9990, 1, 2, 3, 4, 5, 0, time.UTC)) }},
+		{"ctime-300-years-back", func(c *Case) { c.CTime = -yearsD(290); c.CTimeAbs = timeP(time.Date(1700, 1, 2, 3, 4, 5, 0, time.UTC)) }},
+		{"start-year-9990", func(c *Case) { c.StartAbs = timeP(time.Date(9990, 1, 2, 3, 4, 5, 0, time.UTC)) }},
+		{"end-year-1700", func(c *Case) { c.EndAbs = timeP(time.Date(1700, 1, 2, 3, 4, 5, 0, time.UTC)) }},
 		{"tkt-cleartext-encpart-appended", func(c *Case) { c.TktAppendClear = true; c.ACName = []string{"administrator"} }},
 		{"pac-undecodable-4-bytes", func(c *Case) { withPAC(c, "pac-bad:4-bytes", []byte{1, 0, 0, 0}) }},
 		{"pac-empty", func(c *Case) { withPAC(c, "pac-bad:empty", []byte{}) }},
